@@ -7,4 +7,4 @@ Extraction "../build/ocaml/C12/model.ml"
   s_conns s_order s_allfds s_maxfd s_ref s_ptr s_ioc s_bad s_log s_hung s_unmod s_cleaned s_cfg
   c_fd c_life c_proto c_leak l_freed l_open l_new l_gone l_close
   p_state p_minor p_hold p_req p_mod p_enc p_res p_ftopen p_outlock p_sendlock p_wr p_inq p_peer
-  has_res is_open s_scaled p_scaled p_sw p_sh s_pending.
+  has_res is_open iter_clients s_scaled p_scaled p_sw p_sh s_pending.
